@@ -90,6 +90,10 @@ SHORT = {
  'C14f': '`newly_release` / `release_absorbed_keys`: removal from the keys considered pressed through `position(..).unwrap()` (panics when an absorbed modifier was released before the next key)',
  'C17d': '`systemd_arg_escape`: `$` doubled only when the next character could start a variable name (a run of dollars is written bare and collapses)',
  'C19e': '`release_all_action_keys`: rewritten as one iterator chain that no longer removes the lifted keys from the passed-through keys (second `Released` at the physical key-up)',
+ 'C01d': '`release_absorbed_keys`: the per-key loop split into three batch passes (pass-through sweep, mapping removals, one retain on the keys considered pressed); with two absorbed keys that are also outputs the second is handed back to pass-through after the sweep and its release is ignored',
+ 'C03e': '`make_hashed_layout`: a mapping whose trigger is the same *set* with the same final key replaces the earlier entry in place (variant of C03: a mapping listed between the two now wins)',
+ 'C07d': '`newly_release`: after `remove_mapping`, an output key of the removed mapping that is still physically down and not on the output is pressed again (a key lifted by a no-repeat mapping becomes held on a later release)',
+ 'C18d': '`DevInputWriter::send`: the batch is written in chunks of 15 records, each with its own SYN_REPORT (a batch of 16 or more events carries extra SYN_REPORTs)',
 }
 rows = []
 for s in sorted(os.listdir('/verif/seeded')):
